@@ -451,7 +451,7 @@ def _exit_case(case, obs, spec, tag):
 
     from ropt.enums import OptimizerExitCode as X  # noqa: PLC0415,N817
 
-    d = tempfile.mkdtemp(prefix="verif_c20_")
+    d = tempfile.mkdtemp(prefix="verif_c20_", dir=("/dev/shm" if os.path.isdir("/dev/shm") else None))
     runner = os.path.join(d, "ropt_plugin_optimizer")
     with open(runner, "w") as fh:
         fh.write(_WRAPPER.format(python=sys.executable))
@@ -593,7 +593,7 @@ def run_case(case, obs):
             # the optimizer options that are paths (a directory for what the back-end writes, files its output is sent to)
             import tempfile  # noqa: PLC0415
 
-            outdir = tempfile.mkdtemp(prefix="verif_c20_out_")
+            outdir = tempfile.mkdtemp(prefix="verif_c20_out_", dir=("/dev/shm" if os.path.isdir("/dev/shm") else None))
             spec = dict(spec, optimizer=dict(spec["optimizer"], output_dir=outdir, **({"stdout": "optimizer.out"} if case["i"] % 8 == 1 else {"stderr": os.path.join(outdir, "optimizer.err")})))
             case["spec"] = spec
             obs.count("pairs_with_path_options")
